@@ -3,6 +3,7 @@ package main
 import (
 	"go/ast"
 	"go/token"
+	"sort"
 	"strconv"
 )
 
@@ -57,5 +58,83 @@ func factsClient(p *pkg, o *out) {
 	}
 	for _, f := range []string{"indexFragment", "splitMessage", "cutNewLines", "splitArgs"} {
 		o.shapeDef(p, "", f)
+	}
+	// which functions send on conn.out, and which exported *Conn methods reach Raw
+	{
+		var senders []string
+		calls := map[string]map[string]bool{}
+		exported := map[string]bool{}
+		for _, fd := range p.allFuncs() {
+			if fd.Body == nil {
+				continue
+			}
+			recvName, recvType := "", ""
+			if fd.Recv != nil && len(fd.Recv.List) == 1 {
+				t := fd.Recv.List[0].Type
+				if st, ok := t.(*ast.StarExpr); ok {
+					t = st.X
+				}
+				if id, ok := t.(*ast.Ident); ok {
+					recvType = id.Name
+				}
+				if len(fd.Recv.List[0].Names) == 1 {
+					recvName = fd.Recv.List[0].Names[0].Name
+				}
+			}
+			name := fd.Name.Name
+			if recvType != "" {
+				name = recvType + "." + name
+			}
+			calls[name] = map[string]bool{}
+			if recvType == "Conn" && ast.IsExported(fd.Name.Name) {
+				exported[name] = true
+			}
+			ast.Inspect(fd.Body, func(n ast.Node) bool {
+				switch x := n.(type) {
+				case *ast.SendStmt:
+					if se, ok := x.Chan.(*ast.SelectorExpr); ok && se.Sel.Name == "out" {
+						senders = append(senders, name)
+					}
+				case *ast.CallExpr:
+					if se, ok := x.Fun.(*ast.SelectorExpr); ok {
+						if id, ok := se.X.(*ast.Ident); ok && recvName != "" && id.Name == recvName {
+							calls[name]["Conn."+se.Sel.Name] = true
+						}
+					}
+				}
+				return true
+			})
+		}
+		sort.Strings(senders)
+		o.strListDef("sendersOnOut", senders, true)
+		reach := map[string]bool{"Conn.Raw": true}
+		for changed := true; changed; {
+			changed = false
+			for f, cs := range calls {
+				if reach[f] {
+					continue
+				}
+				for c := range cs {
+					if reach[c] {
+						reach[f] = true
+						changed = true
+					}
+				}
+			}
+		}
+		var api []string
+		for f := range exported {
+			if reach[f] {
+				api = append(api, f[len("Conn."):])
+			}
+		}
+		sort.Strings(api)
+		o.strListDef("exportedReachingRaw", api, true)
+	}
+	o.shapeDef(p, "Conn", "Raw")
+	o.shapeDef(p, "Conn", "write")
+	for _, m := range []string{"Pass", "Nick", "User", "Join", "Part", "Kick", "Quit", "Whois", "Who", "Privmsg", "Privmsgln", "Privmsgf",
+		"Notice", "Ctcp", "CtcpReply", "Version", "Action", "Topic", "Mode", "Away", "Invite", "Oper", "VHost", "Ping", "Pong", "Cap", "Authenticate"} {
+		o.shapeDef(p, "Conn", m)
 	}
 }
